@@ -237,10 +237,8 @@ func (ep *ExportingProcess) SendSet(set entities.Set) (int, error) {
 	if setType == entities.Undefined {
 		return 0, fmt.Errorf("set type is not properly defined")
 	}
-	for _, record := range set.GetRecords() {
-		if setType == entities.Template {
-			ep.updateTemplate(record.GetTemplateID(), record.GetOrderedElementList(), record.GetMinDataRecordLen())
-		} else if setType == entities.Data {
+	if setType == entities.Data {
+		for _, record := range set.GetRecords() {
 			err := ep.dataRecSanityCheck(record)
 			if err != nil {
 				return 0, fmt.Errorf("error when doing sanity check:%v", err)
@@ -261,6 +259,13 @@ func (ep *ExportingProcess) SendSet(set entities.Set) (int, error) {
 	}
 	if err != nil {
 		return bytesSent, err
+	}
+	if setType == entities.Template {
+		// Remember the templates only once they have been sent: data sets are
+		// validated against the templates that the collector can know about.
+		for _, record := range set.GetRecords() {
+			ep.updateTemplate(record.GetTemplateID(), record.GetOrderedElementList(), record.GetMinDataRecordLen())
+		}
 	}
 	return bytesSent, nil
 }
